@@ -953,10 +953,37 @@ def nodes(n):
 
 
 def max_depth(data):
-    try:
-        return max(x.depth for top in walk_all(data) for x in nodes(top))
-    except RefError:
-        return None
+    """Lenient estimate of the nesting depth of (possibly malformed) data: follows constructed headers greedily."""
+    depth = 0
+    best = 0
+    ends = []
+    pos = 0
+    n = len(data)
+    steps = 0
+    while pos < n and steps < 10000:
+        steps += 1
+        while ends and ends[-1] is not None and pos >= ends[-1]:
+            ends.pop()
+            depth -= 1
+        if data[pos:pos + 2] == b'\x00\x00' and ends and ends[-1] is None:
+            ends.pop()
+            depth -= 1
+            pos += 2
+            continue
+        try:
+            cls, con, num, ln, p = parse_header(data, pos)
+        except RefError:
+            break
+        if con:
+            depth += 1
+            best = max(best, depth)
+            ends.append(None if ln is None else p + ln)
+            pos = p
+        else:
+            if ln is None:
+                break
+            pos = p + ln
+    return best
 
 
 # ------------------------------------------------------------------ start-up self test
